@@ -65,6 +65,8 @@ def bfs(acc, run, events, maxdepth, first=None):
     States are deduplicated by key; every (state, event) pair of every visited state up to maxdepth is
     executed once.  `first` restricts depth-1 events (sharding)."""
     k0, v0, o0 = run([])
+    if v0 and (first is None or first[0] == 0):      # the initial state is judged too (by one shard)
+        acc.case([], o0, v0, nontrivial=True)
     acc.state(k0)
     seen = {k0}
     frontier = [([], k0)]
